@@ -29,7 +29,7 @@ fn good_args(id: usize) -> &'static str {
     match id {
         2 => " 5", 4 => " -3", 6 => " ON", 7 => " 1,2,3", 8 => " -4,5", 9 => " 'hi'", 11 => " #13abc", 13 => " 1.5", 14 => " -2.25E1", 18 => " 1",
         22 => " #HFF", 23 => " -1,\"x\",OFF", 24 => " 7", 26 => " -1,2,-3",
-        36 => " 1,2,3,4,5,6,7,8,9,10", 37 => " 1.5,2", 38 => " 3", 39 => " -220", 42 => " 18446744073709551615", 43 => " -113", 44 => " 5,-5",
+        36 => " 1,2,3,4,5,6,7,8,9,10", 37 => " 1.5,2", 38 => " 3", 39 => " -220", 42 => " 18446744073709551615", 43 => " -113", 44 => " 9", 46 => " 3", 48 => " 5,-5",
         _ => "",
     }
 }
@@ -320,6 +320,12 @@ fn g_robust(seed: u64, emit: Emit) {
             for n in [32usize, 64, 128] { if !emit(Scenario { mode: Mode::Process { n, cuts: vec![], yields: 0, fail_at: None }, input: m.clone().into_bytes(), whole: false, base: None }) { return; } }
         }
     }
+    // every input of the other run-/process-based families as well (only crashes and hangs count here)
+    for g in [g_headers as fn(u64, Emit), g_compound, g_args, g_responses, g_faulty, g_finality, g_transport] {
+        let mut go = true;
+        g(seed, &mut |mut sc: Scenario| -> bool { sc.base = None; go = emit(sc); go });
+        if !go { return; }
+    }
     for _ in 0..200_000u32 * scale {
         let len = 4 + rng.below(9);
         let mut m: Vec<u8> = vec![];
@@ -338,14 +344,19 @@ const FAULTY: &[&str] = &[
     "LEV", "*IDN", "SOUR:RANG?", "CONF:TEN 1,2,3,4,5,6,7,8,9,10,11", "CONF:TEN 1,2,3,4,5,6,7,8,9,300",
 ];
 const GOOD: &[&str] = &["SOUR:LEV 7", "SOUR:LEV?", "*IDN?", "LEV?", "SOUR:LEV 1;LEV?", "MEAS:PAIR?", "DISP:TEXT 'ok';TEXT?"];
-/// message triples good / message containing one faulty unit (47 kinds, at the first, middle or last position among
+/// message triples good / message containing one faulty unit (59 kinds, at the first, middle or last position among
 /// good units) / good, in one buffer given to run and streamed through process (N = 64, reads of 1, 5 and all bytes)
+/// faulty units that are not valid UTF-8 (truncated or impossible sequences inside a closed string, in a header, as a parameter)
+const FAULTY_BIN: &[&[u8]] = &[b"DISP:TEXT 'ab\xE2\x82'", b"DISP:TEXT '\xff'", b"DISP:TEXT \"\xC3\"", b"SOUR:LEV \xE2\x82", b"NOPE\xC3", b"SOUR:L\xC3\xA9V 1", b"MEAS:TRI? 1,'\xF0\x9F',ON", b"HEX #HF\xC3", b"DISP:TEXT '\xE2\x82\xAC' x"];
 fn g_faulty(_seed: u64, emit: Emit) {
-    for f in FAULTY { for (gi, g) in GOOD.iter().enumerate() {
-        let g2 = GOOD[(gi + 1) % GOOD.len()];
-        let g3 = GOOD[(gi + 3) % GOOD.len()];
-        for m in [format!("{f}\n"), format!("{f};{g2}\n"), format!("{g2};{f}\n"), format!("{g2};{f};{g3}\n"), format!("{g2};:{f};{g3}\n")] {
-            let stream = format!("{g}\n{m}{g}\n{g3}\n").into_bytes();
+    let all: Vec<Vec<u8>> = FAULTY.iter().map(|f| f.as_bytes().to_vec()).chain(FAULTY_BIN.iter().map(|f| f.to_vec())).collect();
+    for f in &all { let f = String::from_utf8_lossy(f).into_owned(); let _ = &f; }
+    for fb in &all { for (gi, g) in GOOD.iter().enumerate() {
+        let g2 = GOOD[(gi + 1) % GOOD.len()].as_bytes();
+        let g3 = GOOD[(gi + 3) % GOOD.len()].as_bytes();
+        let g = g.as_bytes();
+        for m in [cat(&[fb, b"\n"]), cat(&[fb, b";", g2, b"\n"]), cat(&[g2, b";", fb, b"\n"]), cat(&[g2, b";", fb, b";", g3, b"\n"]), cat(&[g2, b";:", fb, b";", g3, b"\n"])] {
+            let stream = cat(&[g, b"\n", &m, g, b"\n", g3, b"\n"]);
             if stream.iter().filter(|b| **b == b'\n').count() != 4 { continue; }
             if !emit(run(stream.clone())) { return; }
             for step in [1usize, 5, 0] {
@@ -449,7 +460,9 @@ fn g_containers(seed: u64, emit: Emit) {
 
 // ---------------------------------------------------------------- C09
 const QOPS: &[&str] = &["NOPE\n", "SOUR:LEV 999\n", "FAIL\n", "SYST:ERR?\n", "SYST:ERR:COUN?\n", "SYST:ERR:NEXT?\n", "*RST\n", "NOPE;FAIL;SYST:ERR?;:SYST:ERR:COUN?\n", "syst:err?;:syst:err?\n",
-    "*IDN;SYST:ERR:COUN?\n", "FAIL;LEV;FAIL;*IDN;SYST:ERR:COUN?\n", "ERR:RAIS -220;:SYST:ERR?\n"];
+    "*IDN;SYST:ERR:COUN?\n", "FAIL;LEV;FAIL;*IDN;SYST:ERR:COUN?\n", "ERR:RAIS -220;:SYST:ERR?\n",
+    // a queue query with a surplus parameter is a faulty message: one error, nothing is removed or answered
+    "SYST:ERR? 1\n", "SYST:ERR:COUN? 1\n", "NOPE;:SYST:ERR:NEXT? 0;:SYST:ERR:COUN?\n"];
 const QATOMS: &[&str] = &["NOPE\n", "FAIL\n", "SYST:ERR?\n", "SYST:ERR:COUN?\n"];
 const DRAIN: &str = "SYST:ERR:COUN?\nSYST:ERR?\nSYST:ERR?\nSYST:ERR?\nSYST:ERR?\nSYST:ERR:COUN?\n";
 fn sequences(pool: &[&str], max_len: usize, tail: &str, emit: Emit) -> bool {
@@ -468,7 +481,7 @@ fn sequences(pool: &[&str], max_len: usize, tail: &str, emit: Emit) -> bool {
         }
     }
 }
-/// against a queue of capacity 3: every sequence of 1..=4 operations from a pool of 12 (faulty messages of three
+/// against a queue of capacity 3: every sequence of 1..=4 operations from a pool of 15 (faulty messages of three
 /// kinds, the three queue queries, an ordinary command, compound messages mixing faults and queries, a wrong-form
 /// header in front of further units), and every sequence of 1..=9 operations from {undefined header, handler error,
 /// SYSTem:ERRor?, SYSTem:ERRor:COUNt?} followed by a complete drain; every standard error number raised by a handler
@@ -603,23 +616,23 @@ fn g_finality(seed: u64, emit: Emit) {
 
 pub const FAMILIES: &[Family] = &[
     Family { name: "headers", props: &["C01"], kinds: &["handler", "error", "panic", "hang"], gen: g_headers,
-        bound: "interface T2 (45 declarations + 3 requested standard commands): every allowed spelling x 3 letter cases x relative/absolute; per level every cut between short and long form, two extensions, level dropped / doubled / appended; query mark toggled; 8 undeclared standard headers" },
+        bound: "interface T2 (49 declarations + 3 requested standard commands): every allowed spelling x 3 letter cases x relative/absolute; per level every cut between short and long form, two extensions, level dropped / doubled / appended; query mark toggled; 8 undeclared standard headers" },
     Family { name: "compound", props: &["C02"], kinds: &["handler", "flush", "error", "panic", "hang"], gen: g_compound,
         bound: "every message of 1..=3 units from a pool of 30 (27 930 messages), the 1- and 2-unit ones also after 5 different preceding messages and with a trailing ';'; thorough tier: also every message of 4 units from 14 of them" },
     Family { name: "args", props: &["C03"], kinds: &["args", "handler", "error", "panic", "hang"], gen: g_args,
-        bound: "4 single-integer handlers x 278 literals; 6 multi-parameter patterns x 278 x 5; 22 boolean, 14 string, 12 block, 33 real literals; parameter counts 0..=12 for all 48 declarations" },
+        bound: "4 single-integer handlers x 278 literals; 6 multi-parameter patterns x 278 x 5; 22 boolean, 14 string, 12 block, 33 real literals; parameter counts 0..=12 for all 52 declarations" },
     Family { name: "responses", props: &["C04"], kinds: &["response", "flush", "writer", "panic", "hang"], gen: g_responses,
         bound: "31 queries alone and in compound messages; ~900 integers (powers of 10 and 2 and neighbours, zero digit groups, type bounds) echoed as u64 / i64 / i8 / u8; strings / blocks of every 1..=3 element combination of {a \" ' ; , e-acute SP}; payload lengths 0..=1000; 39 real literals echoed as f32 and f64, 5 special-value sets; logging writer vs std Vec writer vs heapless writers of 64 and 1024 bytes" },
     Family { name: "robust", props: &["C05"], kinds: &["panic", "hang"], gen: g_robust,
-        bound: "token soup over 27 tokens: all sequences of 1..=3 (with and without NL), 200 000 sampled sequences of 4..=12 (seeded); plus structured inputs (0..=14 parameters, blocks short by 0..=3 bytes, very long numbers / mnemonics / reals); each through run (unbounded writer and writers of 1..=64 bytes) and process with N in {1,2,3,4,8,16}; a scenario without progress for 30 s is reported as a hang" },
+        bound: "token soup over 27 tokens: all sequences of 1..=3 (with and without NL), 200 000 sampled sequences of 4..=12 (seeded); plus structured inputs (0..=14 parameters, blocks short by 0..=3 bytes, very long numbers / mnemonics / reals) and every input of the families headers, compound, args, responses, faulty, finality, transport; each through run (unbounded writer and writers of 1..=64 bytes) and process with N in {1,2,3,4,8,16}; a scenario without progress for 30 s is reported as a hang" },
     Family { name: "faulty", props: &["C06"], kinds: &["handler", "error", "panic", "hang"], gen: g_faulty,
-        bound: "47 kinds of faulty unit x 5 positions in a message x 7 surrounding good messages; run on one buffer and process (N = 64) with reads of 1, 5 and all bytes" },
+        bound: "59 kinds of faulty unit (9 of them not valid UTF-8) x 5 positions in a message x 7 surrounding good messages; run on one buffer and process (N = 64) with reads of 1, 5 and all bytes" },
     Family { name: "chunking", props: &["C07"], kinds: &["handler", "error", "response", "transport", "args", "panic", "hang"], gen: g_chunking,
         bound: "29 streams x N in {4,5,8,10,16,21,32,43,64} x all compositions (length <= 12; thorough tier: <= 16) or single bytes / all 2-splits / fixed sizes 2..=9 / empty reads / 40 sampled compositions; 0, 1, 3 suspensions per transport call; reference = same stream in maximal reads (real code); and, for streams of fitting messages, reference = the real run one message at a time" },
     Family { name: "containers", props: &["C08"], kinds: &["handler", "args", "error", "rest", "panic", "hang"], gen: g_containers,
         bound: "payloads of 1..=3 (thorough tier: 1..=4) bytes from 12 special bytes in strings of both quote kinds and blocks, 6 message shapes (incl. a relative unit behind a compound unit); run whole and process (N = 64) with a read boundary at every position; reference = one run over the whole stream" },
     Family { name: "queue", props: &["C09"], kinds: &["queue", "error", "response", "handler", "panic", "hang"], gen: g_queue,
-        bound: "queue of capacity 3: every sequence of 1..=4 operations from a pool of 12 (22 620); every sequence of 1..=9 operations from {undefined header, handler error, ERRor?, COUNt?} followed by a drain (349 524); every error number -420..=60 raised and read back; each on the logging device and on the device that owns StaticErrorQueue directly; thorough tier: sequences of up to 10 operations" },
+        bound: "queue of capacity 3: every sequence of 1..=4 operations from a pool of 15 (54 240); every sequence of 1..=9 operations from {undefined header, handler error, ERRor?, COUNt?} followed by a drain (349 524); every error number -420..=60 raised and read back; each on the logging device and on the device that owns StaticErrorQueue directly; thorough tier: sequences of up to 10 operations" },
     Family { name: "transport", props: &["C10"], kinds: &["transport", "panic", "hang"], gen: g_transport,
         bound: "29 streams x N in {8,32} x 4 chunkings (one with empty reads) x a transport error at every call index (and none)" },
     Family { name: "lexical", props: &["C11"], kinds: &["handler", "args", "error", "response", "rest", "panic", "hang"], gen: g_lexical,
